@@ -338,6 +338,11 @@ impl<'m> MCTPSMBusContext<'m> {
     /// based on the length of the command code.
     /// On error returned the `MessageType` and a `DecodeError`.
     pub fn get_length(&self, packet: &[u8]) -> Result<usize, (MessageType, DecodeError)> {
+        if packet.len() < 3 {
+            // Not enough data yet to contain the byte count
+            return Err((MessageType::Invalid, DecodeError::Unknown));
+        }
+
         // The third bye contains the length, let's just get the first three
         // bytes
         let mut smbus_header_buf: [u8; 4] = [0; 4];
